@@ -42,6 +42,10 @@ pub enum Wrap {
     Each,
     /// inside `@media screen { … }`
     Media,
+    /// inside a content block handed to a mixin: `@mixin c { @content; } @include c { … }` (load-css only)
+    Content,
+    /// inside a `@while` loop that runs once (load-css only)
+    While,
 }
 
 #[derive(Clone, Debug, PartialEq, Serialize, Deserialize)]
@@ -140,13 +144,16 @@ impl GraphSpec {
                 Stmt::Load { kind: LoadKind::Forward, url, with_cfg, target, filter, .. } => {
                     let w = if *with_cfg { format!(" with ($cfg{target}: 1)") } else { String::new() };
                     let flt = match (*with_cfg, *filter) {
+                        (false, 3) => format!(" as q{target}-*"),
                         (false, 1) => format!(" hide $zz{target}"),
                         (false, 2) => {
                             let mut names = vec![];
                             for x in self.forward_closure(*target) {
-                                names.push(format!("$id{x}"));
-                                names.push(format!("$v{x}"));
-                                names.push(format!("bump{x}"));
+                                // under the name the member has when seen from the forwarded module
+                                let q = self.member_prefix(*target, x, 0).unwrap_or_default();
+                                names.push(format!("${q}id{x}"));
+                                names.push(format!("${q}v{x}"));
+                                names.push(format!("{q}bump{x}"));
                             }
                             format!(" show {}", names.join(", "))
                         }
@@ -183,6 +190,12 @@ impl GraphSpec {
                         )),
                         Wrap::Each => body.push_str(&format!("@each $q{i}x{k} in 1 2 {{ {call} }}\n")),
                         Wrap::Media => body.push_str(&format!("@media screen {{ {call} }}\n")),
+                        Wrap::Content => body.push_str(&format!(
+                            "@mixin c{i}x{k} {{ @content; }}\n@include c{i}x{k} {{ {call} }}\n"
+                        )),
+                        Wrap::While => body.push_str(&format!(
+                            "$n{i}x{k}: 1;\n@while $n{i}x{k} > 0 {{ {call} $n{i}x{k}: $n{i}x{k} - 1; }}\n"
+                        )),
                     }
                 }
                 Stmt::DefMixin { id, url, .. } => {
@@ -198,10 +211,12 @@ impl GraphSpec {
                     ));
                 }
                 Stmt::Assign { ns, target, value, by_mixin: true, .. } => {
-                    body.push_str(&format!("@include {}bump{target}({value});\n", self.ns_prefix(i, ns)));
+                    let q = self.member_prefix_via(i, ns, *target);
+                    body.push_str(&format!("@include {}{q}bump{target}({value});\n", self.ns_prefix(i, ns)));
                 }
                 Stmt::Assign { ns, target, value, wrap, .. } => {
-                    let a = format!("{}$v{target}: {value};", self.ns_prefix(i, ns));
+                    let q = self.member_prefix_via(i, ns, *target);
+                    let a = format!("{}${q}v{target}: {value};", self.ns_prefix(i, ns));
                     match wrap {
                         Wrap::If => body.push_str(&format!("@if true {{ {a} }}\n")),
                         Wrap::Mixin => body.push_str(&format!("@mixin a{i}x{k} {{ {a} }}\n@include a{i}x{k};\n")),
@@ -210,8 +225,9 @@ impl GraphSpec {
                 }
                 Stmt::Probe { ns, target, tag } => {
                     let px = self.ns_prefix(i, ns);
+                    let q = self.member_prefix_via(i, ns, *target);
                     body.push_str(&format!(
-                        "u{i}-{tag}-t{target} {{ id: {px}$id{target}; v: {px}$v{target}; }}\n"
+                        "u{i}-{tag}-t{target} {{ id: {px}${q}id{target}; v: {px}${q}v{target}; }}\n"
                     ));
                 }
             }
@@ -239,6 +255,35 @@ impl GraphSpec {
             return format!("{}.", url.rsplit('/').next().unwrap_or(""));
         }
         format!("{ns}.")
+    }
+
+    /// The prefix that the members of module `target` carry when seen from module `from`
+    /// (`@forward ... as q<t>-*` statements on the first forwarding path), "" if none.
+    pub fn member_prefix(&self, from: usize, target: usize, depth: usize) -> Option<String> {
+        if from == target {
+            return Some(String::new());
+        }
+        if depth > 16 {
+            return None;
+        }
+        for s in &self.files.get(from)?.stmts {
+            if let Stmt::Load { kind: LoadKind::Forward, target: t, filter, with_cfg, .. } = s {
+                if let Some(rest) = self.member_prefix(*t, target, depth + 1) {
+                    let p = if *filter == 3 && !*with_cfg { format!("q{t}-") } else { String::new() };
+                    return Some(format!("{p}{rest}"));
+                }
+            }
+        }
+        None
+    }
+
+    /// Same, from the module that namespace `ns` of file `i` stands for.
+    pub fn member_prefix_via(&self, i: usize, ns: &str, target: usize) -> String {
+        let nt = self.files[i].stmts.iter().find_map(|s| match s {
+            Stmt::Load { kind: LoadKind::Use, ns: n, target: t, .. } if n == ns => Some(*t),
+            _ => None,
+        });
+        nt.and_then(|nt| self.member_prefix(nt, target, 0)).unwrap_or_default()
     }
 
     /// File `t` and every file it forwards, transitively (what a user of `t` can see).
